@@ -30,6 +30,8 @@ def configs(tier, seed):
     cfgs.append({"aw": 6, "dw": 16, "align": 0, "subs": [{"aw": 3, "name": "hi", "addr": 0x20}, {"aw": 2, "name": "lo", "addr": 0x4},
                                                          {"aw": 1, "name": None, "addr": 0x3e}]})
     cfgs.append({"aw": 1, "dw": 8, "align": 0, "subs": [{"aw": 1, "name": None, "addr": None}]})
+    for c in cfgs:
+        c["directed"] = True          # hand-written window sets are valid by construction: a refusal is a violation (must_accept)
     n = 60 if tier == "quick" else 1200
     for _ in range(n):
         aw = rng.randint(2, 8)
@@ -37,7 +39,16 @@ def configs(tier, seed):
         for i in range(rng.randint(1, 4)):
             subs.append({"aw": rng.randint(1, max(1, aw - 1)), "name": rng.choice([None, f"w{i}"]), "addr": None,
                          "align_to": rng.choice([None, None, None, 1, 2, 5])})
-        cfgs.append({"aw": aw, "dw": rng.choice([8, 16, 32]), "align": rng.choice([0, 0, 0, 1, 2, 3]), "subs": subs})
+        align = rng.choice([0, 0, 0, 1, 2, 3])
+        # widen the decoder until the window set fits (generation only: most random sets are then explored instead of refused;
+        # one in five keeps its random width, so tight and overflowing sets are still generated)
+        if rng.random() < 0.8:
+            cur = 0
+            for sc in subs:
+                al = max(align, sc["aw"], sc["align_to"] or 0)
+                cur = -(-cur // (1 << al)) * (1 << al) + (1 << max(sc["aw"], align))
+            aw = max(aw, (cur - 1).bit_length())
+        cfgs.append({"aw": aw, "dw": rng.choice([8, 16, 32]), "align": align, "subs": subs})
     return cfgs
 
 
@@ -114,7 +125,7 @@ def main(run: Run):
     run.assumptions += BASE_ASSUMPTIONS_L2
     run.functions["amaranth_soc.csr.bus.Decoder.elaborate"] = "per-configuration (bounded: window sets), all inputs"
     run.functions["amaranth_soc.csr.bus.Decoder.add"] = "exercised; window ranges from bus.memory_map.windows()"
-    run_configs(run, __name__, cfgs, must_accept=True)      # every generated window set fits by construction
+    run_configs(run, __name__, cfgs, must_accept=lambda cfg: bool(cfg.get('directed')))
     from . import tree_equiv
     tree_equiv.add_to(run, "C06")
     from . import patterns_l1
